@@ -39,10 +39,10 @@ def run(ctx):
     else:
         trees = universe(ctx)
         rng.shuffle(trees)
-        trees = trees[:400 if ctx.quick else 6000]
-        trees += [X.random_tree(rng, 3, leaves) for _ in range(300 if ctx.quick else 6000)]
-        trees += [X.random_tree(rng, 3, rleaves) for _ in range(100 if ctx.quick else 2000)]
-        trees += [X.random_logical(rng, 2, leaves) for _ in range(100 if ctx.quick else 2000)]
+        trees = trees[:400 if ctx.quick else 700]
+        trees += [X.random_tree(rng, 3, leaves) for _ in range(300 if ctx.quick else 700)]
+        trees += [X.random_tree(rng, 3, rleaves) for _ in range(100 if ctx.quick else 300)]
+        trees += [X.random_logical(rng, 2, leaves) for _ in range(100 if ctx.quick else 300)]
         # literal arithmetic around division: (n1 - n2)/n3, n1/(n2 - n3), negative IntLiteral nodes, literal powers
         lit = []
         for n1 in range(0, 10):
@@ -56,7 +56,7 @@ def run(ctx):
                 lit.append({'k': 'quot', 'c': [{'k': 'rawint', 'v': v}, {'k': 'rawint', 'v': d}]})
                 lit.append({'k': 'sum', 'c': [X.V('a'), {'k': 'prod', 'c': [X.V('b'), {'k': 'quot', 'c': [{'k': 'rawint', 'v': v}, {'k': 'rawint', 'v': d}]}]}]})
         rng.shuffle(lit)
-        trees += lit[:150 if ctx.quick else len(lit)]
+        trees += lit[:150 if ctx.quick else 400]
         fsets = flag_sets(ctx.quick)
         work = []
         for t in trees:
